@@ -261,7 +261,7 @@ PROPS = {
                   "and line attribution; second reference = quandary's stream parser on the textual flattening",
         rule="trees of 1-6 files in ./, sub/, sub/deeper/, other/ (each file included once, relative paths with ../, quoted or "
              "not), directive origins present/absent, $TTL lines and blank-owner / omitted-TTL / omitted-class records right "
-             "after an include, depth limits 0-4 around the depth the tree needs. distinct = (files, depth needed, limit, too deep)",
+             "after an include, depth limits 0-4 around the depth the tree needs. distinct = (files, depth needed, limit, too deep); a quarter of the root files have no $ORIGIN at all (absolute names only), and half of the returns from an include into such a file are followed by a relative-owner or @ line that must end the parse with an error",
         assumptions=COMMON_ASSUMPTIONS + ["files are written under /verif/work (removed afterwards)", "IN WKS values are not compared here (known finding of C23)"],
         quick=plans(dict(build="dbg", nshards=16)),
         thorough=plans(dict(build="dbg", nshards=16), dict(build="rel", nshards=16), dict(build="asan", nshards=16, scale=0.2)),
@@ -291,7 +291,7 @@ PROPS = {
         rule="prefix lengths v4 in {0,1,8,16,24,31,32}, v6 in {0,1,48,56,63,64}; table sizes {1,7,1024,65537}; slip 0/1; second "
              "request derived from the first: same or one bit flipped at/inside/outside the prefix boundary, IPv4 vs mapped "
              "IPv6, case variants, two names under one wildcard / under different wildcards, NODATA vs answer, NXDOMAIN vs "
-             "REFUSED vs FORMERR, TCP, NOTIFY/UPDATE/STATUS opcodes. distinct = (relation, limited, category, prefixes, wildcard); an eighth of the requests carry an OPT with EDNS version 1 (BADVERS, whose low four RCODE bits equal NOERROR: it belongs to the per-prefix stream of all other RCODEs)",
+             "REFUSED vs FORMERR, TCP, NOTIFY/UPDATE/STATUS opcodes. distinct = (relation, limited, category, prefixes, wildcard); an eighth of the requests carry an OPT with EDNS version 1 (BADVERS, whose low four RCODE bits equal NOERROR: it belongs to the per-prefix stream of all other RCODEs); sources include IPv6 addresses in ::/96 (the IPv4-compatible spelling of the IPv4 addresses in play), which are IPv6 sources, not IPv4-mapped ones",
         assumptions=COMMON_ASSUMPTIONS + ["pairs taking >= 0.5 s of real time are discarded", "a 2^-32 QNAME-hash collision would be a false alarm"],
         quick=plans(dict(build="dbg", nshards=16)),
         thorough=plans(dict(build="dbg", nshards=16), dict(build="rel", nshards=16)),
